@@ -15,6 +15,7 @@ type pb struct {
 	spOf  map[int]int // parameter handle -> URL id
 	stale map[int]bool
 	nP    int
+	theme map[int][]string // per-plan value pools per setter (nil = plan is not themed)
 }
 
 func newPB(r *RNG) *pb {
@@ -69,7 +70,36 @@ func (b *pb) pickU() int {
 	return b.urls[b.r.Intn(n)]
 }
 
+// themeVal: in themed plans each setter has a tiny per-plan pool of values, so that the same value
+// comes back later in the history, on another object, or for a neighbouring setter.
+func (b *pb) themeVal(w int) (string, bool) {
+	if b.theme == nil || !b.r.Chance(1, 2) {
+		return "", false
+	}
+	if b.r.Chance(1, 6) {
+		w = b.r.Intn(9) // a value drawn for another component
+	}
+	if b.theme[w] == nil {
+		n := b.r.Range(1, 3)
+		for i := 0; i < n; i++ {
+			b.theme[w] = append(b.theme[w], b.g.SetterValue(w))
+		}
+	}
+	return b.theme[w][b.r.Intn(len(b.theme[w]))], true
+}
+
 func (b *pb) set(u int, w int) {
+	if v, ok := b.themeVal(w); ok {
+		b.add(Op{K: "set", P: b.party[u], H: u, W: w, A: QS(v)})
+		if w == 7 {
+			for _, s := range b.sps {
+				if b.spOf[s] == u {
+					b.stale[s] = true
+				}
+			}
+		}
+		return
+	}
 	switch k := b.r.Intn(24); {
 	case k == 0 || k == 1:
 		// state-dependent value: the setter is handed the component's own current getter value
@@ -98,7 +128,13 @@ func (b *pb) resolve(u int, way int) int {
 		p = b.nP
 	}
 	id := b.newU(p)
-	b.add(Op{K: "resolve", P: p, H: u, D: id, W: way, A: QS(b.g.Ref())})
+	op := Op{K: "resolve", P: p, H: u, D: id, W: way, A: QS(b.g.Ref())}
+	if len(b.urls) > 1 && b.r.Chance(1, 10) {
+		// the reference is the serialization of a live URL (another one, or the base itself) + suffix
+		op.V, op.S = "peerhref", b.urls[b.r.Intn(len(b.urls)-1)]
+		op.A = QS(b.g.pick([]string{"", "", "#f", "?q", "/..", "x"}))
+	}
+	b.add(op)
 	return id
 }
 
@@ -231,6 +267,10 @@ func genWorldPlan(prop string, master uint64, run int) Plan {
 	b := newPB(r)
 	pl := Plan{Prop: prop, Seed: master, Run: run}
 	n := histLen(r)
+	if r.Chance(1, 2) {
+		b.theme = map[int][]string{}
+		b.g.themeNames = true
+	}
 	switch prop {
 	case "C19":
 		pl.Cfg = neutralConfig(r)
